@@ -404,8 +404,18 @@ Definition spec_obs_at (data : list N) (off pos : N) (runes : list N) (strs word
     map (fun m => enc_ws (spec_skip_whitespaces data off pos m)) all_modes).
 
 (* every position from the file's first byte to its end-of-file position *)
+Definition all_positions (r : reader) : list N :=
+  N_range (r_offset r) (length (r_data r) + 1).
+(* of a file longer than 2000 bytes: the first and last 60 positions, those around the first multiples of 4096 and
+   around every multiple of 65536 *)
+Definition keep_position (n off p : N) : bool :=
+  let c := p - off in
+  (n <=? 2000) || (c <? 60) || (n <? c + 60) ||
+  ((c <? 12296) && ((c mod 4096 <? 6) || (4090 <=? c mod 4096))) ||
+  (c mod 65536 <? 8) || (65528 <=? c mod 65536).
 Definition positions_of (r : reader) : list N :=
-  map (fun i => r_offset r + N.of_nat i) (seq 0 (length (r_data r) + 1)).
+  let n := N.of_nat (length (r_data r)) in
+  filter (keep_position n (r_offset r)) (all_positions r).
 
 Definition c09_expected (c : c09_case) : obs :=
   match c with
